@@ -389,6 +389,8 @@ IDENT = st.one_of(
     st.text(alphabet="abcdefgh_", min_size=1, max_size=4),
     # names where one is a prefix of another and the longer one goes on with a digit or an underscore
     st.sampled_from(["a", "a1", "a10", "ab", "a_", "x", "x2", "id", "id0", "width", "width2", "width_max", "B", "b"]),
+    # names that begin or end like the ones the reprs treat specially, and names of read-only node properties (legal data keys)
+    st.sampled_from(["names", "name_de", "namespace", "nam", "rename", "targets", "target_id", "childrens", "parents", "size", "depth", "height", "path", "is_leaf"]),
 ).filter(lambda k: k not in ("parent", "children", "name", "separator"))
 REPR_VALUE = st.one_of(st.integers(-3, 3), st.text(alphabet=SAFE_CHARS, max_size=4), st.none(), st.lists(st.integers(0, 2), max_size=2))
 
